@@ -34,7 +34,7 @@ def check(repo, tier="quick"):
         "pinned-ness of inverse_quant / quant_factor / quant_offset, and the lossless_quantization test case's reliance on distinct "
         "dequantised values from index 7 upward."
     )
-    res.rule("C12.a", "inverse_quant, quant_factor and quant_offset remain pinned to the standard's pseudocode without deviation (their arithmetic is covered by the repository's equivalence test and is not decided here)")
+    res.rule("C12.a", "inverse_quant, quant_factor and quant_offset remain pinned to the standard's pseudocode without deviation and contain no not-in-spec statement (a table, shortcut or early return inside a `## Begin not in spec` region is invisible to the equivalence test) (their arithmetic is covered by the repository's equivalence test and is not decided here)")
     res.rule("C12.b", "forward_quant returns (4*|coeff|) // quant_factor(quant_index) for non-negative coefficients and exactly the negation of that quotient for negative ones: the floor division is applied to a non-negative magnitude (rounding towards zero) with the factor of the same index the dequantiser uses")
     res.rule("C12.c", "the lossless_quantization test case sets every slice's qindex to (largest quantisation matrix entry over all levels and orientations) + MINIMUM_DISTINCT_QINDEX, and that constant is at least 6 (reviewed: inverse_quant(1, q) = 1, 2, 2, 3, 3, 4, 4, 5, 6, 7, 9, ... repeats at 5/6 and is strictly increasing afterwards; the repository uses 7), so every effective index qindex - matrix entry is in the range where inverse_quant(1, .) is strictly increasing")
     res.rule("C12.d", "no state kept between calls in the quantisation module; bug-pattern rules")
@@ -45,6 +45,14 @@ def check(repo, tier="quick"):
         if f is None:
             raise AnalysisError("anchor vanished: quantization.%s" % name)
         res.check(repo.is_pinned_function(f), "C12.a", "pinned:%s" % name, "%s:%s" % (m.rel, name), "%s is no longer pinned to the standard's pseudocode" % name, by="@ref_pseudocode, no deviation")
+    from . import c09 as _c09
+    from ..report import Ob as _Ob
+
+    _sub = Result("C09")
+    _c09.rule_h(repo, _sub, "C09.h")
+    for _o in _sub.obs:
+        if ".quantization." in _o.key or "quantization" in _o.where:
+            res._add(_Ob("C12.a", "%s/%s" % (_o.rule, _o.key), _o.where, _o.status, _o.detail, _o.by, _o.path))
     rule_b(res, m)
     rule_c(res, repo)
     from .. import globals_state, lints
